@@ -707,10 +707,11 @@ GEN_THEOREMS = ['fusion_positions', 'fusion_category_choice', 'fusion_match_crit
 def prepare(ctx):
     """Translator tie (see gen_tie.py): FusionART's own methods are regenerated from the source on every run and proved
     equal to the channel-wise definitions the property theorems are stated about"""
-    from .gen_tie import gen_prepare
-    gen_prepare(ctx, GEN_THEOREMS + ["FusionPredict.step_pred_spec", "FusionPredict.predict_spec", "FusionPredict.n_clusters_spec",
+    from .gen_tie import gen_prepare, extra_theorems
+    from .. import ftrans3
+    gen_prepare(ctx, GEN_THEOREMS + extra_theorems("ftrans3") + ["FusionPredict.step_pred_spec", "FusionPredict.predict_spec", "FusionPredict.n_clusters_spec",
                                      "FusionPredict.get_cluster_centers_spec"],
-                'FusionART.step_pred / predict / n_clusters / get_cluster_centers (ftrans2 -> ArtGen/FusionPredict.lean); FusionART.category_choice / match_criterion_bin / update / new_weight / _match_tracking / add_weight / set_weight / W and get_channel_position_tuples (ftrans -> ArtGen/Fusion.lean) = the channel-wise definitions of ArtModel/Fusion.lean (choiceSkip, matchBinSkip, rawUpdate, rawNew, modsAdd, modsSet, fusedW)')
+                ftrans3.COVERS + '; FusionART.step_pred / predict / n_clusters / get_cluster_centers (ftrans2 -> ArtGen/FusionPredict.lean); FusionART.category_choice / match_criterion_bin / update / new_weight / _match_tracking / add_weight / set_weight / W and get_channel_position_tuples (ftrans -> ArtGen/Fusion.lean) = the channel-wise definitions of ArtModel/Fusion.lean (choiceSkip, matchBinSkip, rawUpdate, rawNew, modsAdd, modsSet, fusedW)')
 
 
 def run(ctx):
